@@ -328,6 +328,8 @@ def to_value(x):
                 int(t[10:12]), int(t[12:14]), int(frac or 0)))
         if tag == "pat":
             return V.ValuePattern(x[1])
+        if tag == "node":
+            return V.ValueNode(ckl.parser.parse_script(x[1], "node"))
         if tag == "dec":  # int-backed decimal is not used; plain float
             return V.ValueDecimal(float(x[1]))
     raise TypeError(f"to_value: {x!r}")
@@ -575,8 +577,13 @@ def from_value(v):
     if isinstance(v, V.ValueBoolean):
         return bool(v.value)
     if isinstance(v, V.ValueInt):
+        # an int value holds an exact integer; anything else is a kind slip
+        if type(v.value) is not int:
+            return ("int-holding", type(v.value).__name__, repr(v.value))
         return v.value
     if isinstance(v, V.ValueDecimal):
+        if type(v.value) not in (float, int):
+            return ("decimal-holding", type(v.value).__name__, repr(v.value))
         return float(v.value)
     if isinstance(v, V.ValueString):
         return v.value
